@@ -765,10 +765,12 @@ def adapt_dispatch(rep, rule, u, imod):
                 elif len(flag) != 1:
                     probs.append('the Python __adapt__ is installed but the flag that '
                                  'makes the C __call__ use it is not set')
-            elif put and (not has or own or inh):
+            elif put:
+                # replacing __adapt__ is only right once the path has ESTABLISHED that
+                # the method is overridden and no custom __adapt__ is given or inherited
                 probs.append('__adapt__ is replaced although %s is not overridden / an '
-                             '__adapt__ is given or inherited (has=%s own=%s inherited=%s)'
-                             % (m, has, own, inh))
+                             '__adapt__ is given or inherited / that was not tested '
+                             '(has=%s own=%s inherited=%s)' % (m, has, own, inh))
         if not looked:
             probs.append('IB__adapt__ inlines the default %s (no method call on self), and '
                          'InterfaceClass.__new__ never looks whether an interface overrides '
